@@ -154,10 +154,17 @@ theorem C19.degree_spec (g : Graph) :
     (0 < g.nDom → ∃ i, i < g.nDom ∧ (g.row i).length = g.maxDegree) :=
   C19L.api.degree_spec g
 
-theorem C19.permuteIndices_spec (g : Graph) (p : List Nat) (r : Arrays)
-    (h : Kern.permuteIndices (Arrays.ofGraph g) p = some r) :
-    r = Arrays.ofGraph { g with adj := g.adj.map fun l => l.map fun k => p.getD k 0 } :=
-  C19L.api.permuteIndices_spec g p r h
+theorem C19.permuteIndices_spec (g : Graph) (p : List Nat) (hwf : g.wf = true) :
+    Kern.permuteIndices (Arrays.ofGraph g) p =
+      if g.imageIdx = [] ∨ g.nImg ≠ p.length then none
+      else some (Arrays.ofGraph { g with adj := g.adj.map fun l => l.map fun k => p.getD k 0 }) :=
+  C19L.api.permuteIndices_spec g p hwf
+
+theorem C19.permuteIndices_relabels (g : Graph) (p : List Nat) (hwf : g.wf = true) (hne : g.imageIdx ≠ [])
+    (hp : p.length = g.nImg) :
+    ∃ g' : Graph, Kern.permuteIndices (Arrays.ofGraph g) p = some (Arrays.ofGraph g') ∧
+      g'.nImg = g.nImg ∧ g'.nDom = g.nDom ∧ ∀ i, g'.row i = (g.row i).map fun k => p.getD k 0 :=
+  C19L.api.permuteIndices_relabels g p hwf hne hp
 
 theorem C19.clone_spec (g : Graph) : Kern.clone (Arrays.ofGraph g) = Arrays.ofGraph g :=
   C19L.api.clone_spec g
@@ -242,6 +249,14 @@ theorem C19.self_concat {α : Type} [Inhabited α] (p : List Nat) (x : List α) 
     Perm.isBijection (p.map fun k => p.getD k 0) = true ∧
     Perm.applyPerm (p.map fun k => p.getD k 0) x = Perm.applyPerm p (Perm.applyPerm p x) :=
   C19L.perms2.self_concat p x h hx
+
+theorem C19.self_concat_aliased {α : Type} [Inhabited α] (p : List Nat) (x : List α) (h : Perm.isBijection p = true)
+    (hx : x.length = p.length) :
+    Perm.concatAliased p = (p.map fun k => p.getD k 0) ∧
+    Perm.isBijection (Perm.concatAliased p) = true ∧
+    Perm.applyPerm (Perm.concatAliased p) x = Perm.applyPerm p (Perm.applyPerm p x) ∧
+    Perm.applyPermInv (Perm.concatAliased p) (Perm.applyPerm (Perm.concatAliased p) x) = x :=
+  C19L.perms2.self_concat_aliased p x h hx
 
 theorem C19.random_ctor_bijection (s : List Nat) (hn : 0 < s.length)
     (hs : ∀ i, i + 1 < s.length → i ≤ s.getD i 0 ∧ s.getD i 0 < s.length) (hl : s.getD (s.length - 1) 0 = s.length - 1) :
